@@ -24,6 +24,8 @@ def announce(port):
     sys.stdout.write("PORT %%d\n" %% port.getHost().port); sys.stdout.flush()
     return port
 svc.startService()
+# never outlive the check that started us (a killed strace detaches and leaves its tracee running)
+reactor.callLater(240, os._exit, 0)
 for s in svc:
     if isinstance(s, StreamServerEndpointService):
         s._waitingForPort.addCallback(announce)
@@ -138,7 +140,8 @@ class WireServer(object):
             cmd = ["strace", "-f", "-yy", "-o", strace_log, "-e",
                    "trace=openat,pwrite64,write,writev,sendto,sendmsg,fdatasync,fsync,unlink,unlinkat,close"] + cmd
         env = dict(os.environ, PYTHONDONTWRITEBYTECODE="1", GIT_OPTIONAL_LOCKS="0")
-        self.p = subprocess.Popen(cmd, stdout=subprocess.PIPE, stderr=subprocess.DEVNULL, env=env, cwd=workdir)
+        self.p = subprocess.Popen(cmd, stdout=subprocess.PIPE, stderr=subprocess.DEVNULL, env=env, cwd=workdir,
+                                  start_new_session=True)
         self.port = None
         t0 = time.monotonic()
         while time.monotonic() - t0 < 30:
@@ -155,13 +158,28 @@ class WireServer(object):
             raise IOError("wire server did not start")
 
     def stop(self):
-        if self.p.poll() is None:
-            self.p.terminate()
+        """Ends the whole process group: under strace the server is a grandchild, and a terminated strace only
+        detaches from it."""
+        import signal
+        for sig in (signal.SIGTERM, signal.SIGKILL):
             try:
-                self.p.wait(timeout=10)
+                os.killpg(self.p.pid, sig)
+            except (ProcessLookupError, PermissionError):
+                pass
+            try:
+                self.p.wait(timeout=5)
             except subprocess.TimeoutExpired:
-                self.p.kill()
-                self.p.wait()
+                continue
+            if sig == signal.SIGTERM:
+                time.sleep(0.05)
+        try:
+            os.killpg(self.p.pid, signal.SIGKILL)
+        except (ProcessLookupError, PermissionError):
+            pass
+        try:
+            self.p.stdout.close()
+        except Exception:
+            pass
 
 
 def strip(frame):
